@@ -41,6 +41,14 @@ class StripParser(HTMLParser):
         if not self.script_depth and not self.style_depth:
             self.dat.append(f"&#{name};")
 
+    def parse_marked_section(self, i: int, report: int = 1) -> int:
+        try:
+            return super().parse_marked_section(i, report)
+        except AssertionError:
+            # `<![anything else]>` is not a marked section HTMLParser knows. Strip
+            # it like the bogus comment a browser would take it for.
+            return self.parse_bogus_comment(i, report)
+
     def get_data(self) -> str:
         """Return accumulated data."""
         return "".join(self.dat)
